@@ -150,6 +150,22 @@ CLAIMED.update(
     }
 )
 
+CLAIMED.update(
+    {
+        "C18": (
+            "name-use/import agreement: sticky-flag typestate of needs_pytest with a trigger table computed from the renderers that emit `pytest`, element-order rule on every cst.Module body, exclusion-set rule on exception imports, sibling agreement of the re-execution namespace, independent-guard rule on removal of non-holding assertions",
+            "Decides the clause 'no test fails because of names that are not imported' at the level of code shape: needs_pytest is only ever raised inside the per-test loop and "
+            "has a trigger for every template that renders `pytest` (exceptions, and every assertion class whose renderer transitively builds a pytest name - computed from "
+            "assertion_to_ast); `import pytest` is emitted iff the flag is set (unseeded) or always (seeded); both module bodies list sys/module/alias, random/pytest and the "
+            "SUT / exception imports before their users; every exception named in pytest.raises is recorded and imported unless builtin (no other exclusion); the re-execution "
+            "namespace binds the names of the rendered from-import through one shared helper; assertions that failed and assertions that raised when replayed are both removed, "
+            "each under its own membership test only. That the emitted tests pass, and validity of rendered values (C20), are not decided.",
+            "Trusts python's ast; the list-building idioms (list display, append/extend) of TestSuiteWriter.write are interpreted syntactically.",
+            "DESIGN.md §3 C18",
+        ),
+    }
+)
+
 NOT_APPLICABLE: dict[str, str] = {
     "C06": "Correctness of the post-dominator/CDG construction on every code object is functional correctness of a graph "
     "algorithm; no shape of the code implies it and no sound static argument in reach bounds 'all code objects'.",
